@@ -206,6 +206,13 @@ namespace
 	    parts.push_back('*');
 	    break;
 
+	  case '^':
+	    // "[^]" is not a complete bracket expression, so this
+	    // character has to be escaped instead.
+	    parts.push_back('\\');
+	    parts.push_back('^');
+	    break;
+
 	  case '.':
 	  default:
 	    if (up(w) != down(w))
